@@ -24,7 +24,8 @@ const vfMnemonic = "abandon abandon abandon abandon abandon abandon abandon aban
 // symbolically: the same fields set directly, the seed being 32 symbolic bytes shared by all machines of the path).
 func vfMachine(tag string, seed []byte) *Machine {
 	if vf.Symbolic() {
-		am := &Machine{dkgInstances: make(map[string]*dkg.DKG), baseSeed: seed}
+		// every machine owns its seed bytes (two machines built from the same mnemonic do not share memory)
+		am := &Machine{dkgInstances: make(map[string]*dkg.DKG), baseSeed: append([]byte{}, seed...)}
 		am.baseSuite = bls12381.NewBLS12381Suite(am.baseSeed)
 		// what GenerateKeys does (without the encrypted store)
 		am.secKey = am.baseSuite.Scalar().Pick(am.baseSuite.RandomStream())
@@ -205,6 +206,14 @@ func VF_Airgapped_Replay() {
 	}
 	// uninterrupted machine
 	u := vfOpenMachine(dirU, nil)
+	prior := vf.Param("prior") != ""
+	if prior {
+		// the process has already handled the first step of an EARLIER round (same participants) before this one
+		if _, err := u.ProcessOperation(vfCommitsOp(u, other, "an-earlier-round-identifier", t), true); err != nil {
+			vf.Assert("commits-step-succeeds", false)
+			return
+		}
+	}
 	op := vfCommitsOp(u, other, round, t)
 	if _, err := u.ProcessOperation(op, true); err != nil {
 		vf.Assert("commits-step-succeeds", false)
@@ -216,6 +225,9 @@ func VF_Airgapped_Replay() {
 	// interrupted machine: where did it stop?
 	stop := vf.Choose("stop", 3) // 0: before the step; 1: step computed, never logged (crash before the log write); 2: after the step was logged
 	c := vfOpenMachine(dirC, nil)
+	if prior {
+		_, _ = c.ProcessOperation(vfCommitsOp(c, other, "an-earlier-round-identifier", t), true)
+	}
 	opC := vfCommitsOp(c, other, round, t)
 	switch stop {
 	case 1:
